@@ -49,9 +49,13 @@ static void put_data(Case &c, const Data &D) { c.p.insert(c.p.end(), {D.learner,
 static Data read_data(Reader &rd) { Data D; D.learner = (int)rd.i(); D.n = (int)rd.i(); D.p = (int)rd.i(); D.ny = (int)rd.i(); D.nlv = (int)rd.i(); D.xs = (int)rd.i(); D.ys = (int)rd.i(); D.X = rd.mat(D.n, D.p); D.Y = rd.mat(D.n, D.ny); return D; }
 
 struct CvOut { M pred, res; };
+static bool g_stale_out = false;
 // kind 0 LOO, 1 KFold (labels), 2 bootstrap (groups, iterations)
 static CvOut run_cv(const Data &D, const M &Y, int kind, int threads, const std::vector<int> &labels, int groups, int iters) {
-  matrix *mx = to_lib(D.X), *my = to_lib(Y), *py, *pr; initMatrix(&py); initMatrix(&pr);
+  // result containers: fresh, or (g_stale_out) already sized with ANOTHER shape and stale content - the three routines size their outputs
+  matrix *mx = to_lib(D.X), *my = to_lib(Y), *py, *pr;
+  if (g_stale_out) { NewMatrix(&py, (size_t)D.n, (size_t)scol_of(D) + 1); MatrixSet(py, 555.0); NewMatrix(&pr, (size_t)D.n + 1, (size_t)scol_of(D)); MatrixSet(pr, -555.0); }
+  else { initMatrix(&py); initMatrix(&pr); }
   MODELINPUT in = initModelInput(); in.mx = mx; in.my = my; in.nlv = (size_t)D.nlv; in.xautoscaling = (size_t)D.xs; in.yautoscaling = (size_t)D.ys;
   if (kind == 0) LeaveOneOut(&in, algo_of(D.learner), py, pr, (size_t)threads, NULL, 0);
   else if (kind == 1) { uivector *g; NewUIVector(&g, labels.size()); for (size_t i = 0; i < labels.size(); i++) g->data[i] = (size_t)labels[i]; KFoldCV(&in, g, algo_of(D.learner), py, pr, (size_t)threads, NULL, 0); DelUIVector(&g); }
@@ -99,6 +103,7 @@ static void gen_loo(Draw &d, Case &c) {
 }
 static void pred_loo(const Case &c) {
   Reader rd(c); Data D = read_data(rd); int threads = (int)rd.i(), obj = (int)rd.i();
+  g_stale_out = ((threads + (int)c.v.size()) % 3 == 0); if (g_stale_out) tag("outputs=pre-sized-other-shape");
   CvOut o = run_cv(D, D.Y, 0, threads, {}, 0, 0);
   M expect(D.n, scol_of(D));
   for (int i = 0; i < D.n; i++) { std::vector<int> tr; for (int j = 0; j < D.n; j++) if (j != i) tr.push_back(j); M P = refit_predict(D.learner, rows_of(D.X, tr), rows_of(D.Y, tr), rows_of(D.X, {i}), D.nlv, D.xs, D.ys); for (int q = 0; q < P.c; q++) expect(i, q) = P(0, q); }
@@ -108,7 +113,7 @@ static void pred_loo(const Case &c) {
 }
 
 static void gen_kfold(Draw &d, Case &c) {
-  int learner = (int)d.pick<int>({L_PLS, L_PLS, L_MLR});
+  int learner = (int)d.pick<int>({L_PLS, L_PLS, L_MLR, L_LDA});   // modelvalidation.h lists LDA for every scheme
   int style = (int)d.i(0, 2);    // 0 balanced round-robin, 1 unbalanced random, 2 label values with a gap
   int ng = (int)d.i(2, 6);
   Data D = gen_data(d, c, learner, 6);
@@ -127,6 +132,7 @@ static void gen_kfold(Draw &d, Case &c) {
 }
 static void pred_kfold(const Case &c) {
   Reader rd(c); Data D = read_data(rd); int threads = (int)rd.i(), obj = (int)rd.i();
+  g_stale_out = ((threads + (int)c.v.size()) % 3 == 0); if (g_stale_out) tag("outputs=pre-sized-other-shape");
   std::vector<int> lab(D.n); for (auto &l : lab) l = (int)rd.i();
   CvOut o = run_cv(D, D.Y, 1, threads, lab, 0, 0);
   int gmax = *std::max_element(lab.begin(), lab.end());
@@ -168,6 +174,7 @@ static void gen_boot(Draw &d, Case &c) {
 }
 static void pred_boot(const Case &c) {
   Reader rd(c); Data D = read_data(rd); int groups = (int)rd.i(), iters = (int)rd.i(), threads = (int)rd.i(), obj = (int)rd.i();
+  g_stale_out = ((threads + (int)c.v.size()) % 3 == 0); if (g_stale_out) tag("outputs=pre-sized-other-shape");
   libsci_verif_fold_hook = fold_hook; g_folds.clear();
   CvOut o = run_cv(D, D.Y, 2, threads, {}, groups, iters);
   libsci_verif_fold_hook = nullptr;
